@@ -25,7 +25,7 @@ import (
 var c18Types = []reflect.Type{gen.TString, gen.TString, gen.TString, gen.TBool, gen.TInt, gen.TInt8, gen.TInt16, gen.TInt32, gen.TInt64, gen.TUint, gen.TUint8, gen.TUint16, gen.TUint32, gen.TUint64, gen.TFloat32, gen.TFloat64}
 
 // strings that matter for URL transport
-var c18UrlStrings = []string{"a&b", "a=b", "p&q=r", "a+b", "100%", "a b", "?x", "#frag", "测试&调", "a%26b", "%41", "a;b", "1+1=2", "x&", "=", "&", "a/b?c", "é=ü"}
+var c18UrlStrings = []string{"hello world", "a b c", " lead", "trail ", "a  b", "x+y z", "a&b", "a=b", "p&q=r", "a+b", "100%", "a b", "?x", "#frag", "测试&调", "a%26b", "%41", "a;b", "1+1=2", "x&", "=", "&", "a/b?c", "é=ü"}
 
 func c18Markers(o drive.Out) (set []string, other []string) {
 	if o.Nil || o.Panic != "" {
@@ -80,10 +80,33 @@ func runC18(c *core.Ctx) {
 		}
 		v := gen.TunedLeaf(rng, t, rules, 0.08)
 		if t.Kind() == reflect.String && rng.Intn(4) == 0 {
-			v = reflect.ValueOf(c18UrlStrings[rng.Intn(len(c18UrlStrings))])
+			s := c18UrlStrings[rng.Intn(len(c18UrlStrings))]
+			v = reflect.ValueOf(s)
+			// content-sensitive rules derived from the value itself (a transport that changes one
+			// character without changing the length must change a verdict)
+			if c18RuleSafe(s) {
+				rs := []rune(s)
+				extra := []string{
+					fmt.Sprintf("in=(%s/zz)|m_%d_vin", s, i), fmt.Sprintf("in=(zz/%sx)|m_%d_vnin", s, i),
+					fmt.Sprintf("suffix=%s|m_%d_vsuf", string(rs[len(rs)/2:]), i), fmt.Sprintf("prefix=%s|m_%d_vpre", string(rs[:len(rs)/2+1]), i),
+					fmt.Sprintf("include=(%s)|m_%d_vinc", string(rs[len(rs)/3:len(rs)/3+1+len(rs)/3]), i), fmt.Sprintf("eq=%d|m_%d_veq", len(rs), i),
+				}
+				rng.Shuffle(len(extra), func(a, b int) { extra[a], extra[b] = extra[b], extra[a] })
+				rules = strings.Join(append(extra[:1+rng.Intn(3)], rules), ",")
+			}
 		}
 		c18Case(res, rng, t, v, rules, i)
 	}
+}
+
+// c18RuleSafe: the string can be written inside in=(...) / prefix= / suffix= without touching the
+// rule syntax (no separators, brackets, quotes, pipes, commas) and has no surrounding blanks that a
+// rule argument could not carry.
+func c18RuleSafe(s string) bool {
+	if s == "" || strings.ContainsAny(s, "/()'|,=~\\\"") {
+		return false
+	}
+	return true
 }
 
 func c18Case(res *core.Result, rng *rand.Rand, t reflect.Type, v reflect.Value, rules string, idx int) {
